@@ -68,9 +68,9 @@ pub fn plan_for(prop: &str, tier: &str) -> Plan {
         }
         "C04" => {
             p.scenarios = if q {
-                sc(&[("repl", 1), ("repl-i1-sz", 1), ("crash3", 1), ("crash2-async", 1), ("fig8-div", 1), ("fig8-div", 2), ("fig8-div-gc", 1), ("fig8-div-gc", 2), ("fig8-back", 0), ("read-div", 1), ("read-div", 2), ("fig8-5-cbv", 0), ("member-rm1-2v", 0), ("fig8-back-t4", 0), ("crash2-async-loose", 1), ("relead5", 1), ("relead5", 2), ("member-joint", 1), ("member", 1), ("fig8", 1)])
+                sc(&[("repl", 1), ("repl-i1-sz", 1), ("crash3", 1), ("crash2-async", 1), ("fig8-div", 1), ("fig8-div", 2), ("fig8-div-gc", 1), ("fig8-div-gc", 2), ("fig8-back", 0), ("read-div", 1), ("read-div", 2), ("fig8-5-cbv", 0), ("member-rm1-2v", 0), ("member-a1", 0), ("member-a1", 1), ("fig8-back-t4", 0), ("crash2-async-loose", 1), ("relead5", 1), ("relead5", 2), ("member-joint", 1), ("member", 1), ("fig8", 1)])
             } else {
-                sc(&[("repl", 1), ("repl-i1-sz", 1), ("crash3", 1), ("crash2-async", 1), ("fig8-div", 1), ("fig8-div", 2), ("fig8-div-gc", 1), ("fig8-div-gc", 2), ("fig8-back", 0), ("read-div", 1), ("read-div", 2), ("fig8-5-cbv", 0), ("member-rm1-2v", 0), ("fig8-back-t4", 0), ("crash2-async-loose", 1), ("relead5", 1), ("relead5", 2), ("member-joint", 1), ("member", 1), ("fig8", 1), ("repl-async", 1), ("repl-gc", 1), ("repl-skip", 1), ("repl", 2), ("crash3-async", 1), ("member-joint", 2), ("member", 2), ("crash3-async-loose", 1), ("repl", 3)])
+                sc(&[("repl", 1), ("repl-i1-sz", 1), ("crash3", 1), ("crash2-async", 1), ("fig8-div", 1), ("fig8-div", 2), ("fig8-div-gc", 1), ("fig8-div-gc", 2), ("fig8-back", 0), ("read-div", 1), ("read-div", 2), ("fig8-5-cbv", 0), ("member-rm1-2v", 0), ("member-a1", 0), ("member-a1", 1), ("fig8-back-t4", 0), ("crash2-async-loose", 1), ("relead5", 1), ("relead5", 2), ("member-joint", 1), ("member", 1), ("fig8", 1), ("repl-async", 1), ("repl-gc", 1), ("repl-skip", 1), ("repl", 2), ("crash3-async", 1), ("member-joint", 2), ("member", 2), ("crash3-async-loose", 1), ("repl", 3)])
             };
             p.required_stats = vec![Stat::CommitAdvances, Stat::Crashes];
             p.explanation = "explicit-state exploration; at every leader commit advance: entry of own term and durable (on the simulated disks, not in raft-rs bookkeeping) on a majority of each half of the leader's configuration; non-leader commit never beyond a leader's".into();
@@ -113,9 +113,9 @@ pub fn plan_for(prop: &str, tier: &str) -> Plan {
         }
         "C09" => {
             p.scenarios = if q {
-                sc(&[("member-joint", 1), ("member-rm1", 0), ("member-rm1-2v", 0), ("member-mix-page", 0), ("member-joint-al", 0), ("member-jd", 0), ("snap-jback", 0), ("xfer-cc-al", 0), ("member-fasync", 0), ("member", 1), ("member-eager", 1), ("member-mix", 0)])
+                sc(&[("member-joint", 1), ("member-rm1", 0), ("member-rm1-2v", 0), ("member-mix-page", 0), ("member-joint-al", 0), ("member-jd", 0), ("member-a1", 0), ("snap-jback", 0), ("xfer-cc-al", 0), ("member-fasync", 0), ("member", 1), ("member-eager", 1), ("member-mix", 0)])
             } else {
-                sc(&[("member-joint", 1), ("member-rm1", 1), ("member-rm1-2v", 0), ("member-mix-page", 0), ("member-joint-al", 0), ("member-jd", 0), ("snap-jback", 0), ("xfer-cc-al", 0), ("member-fasync", 0), ("member-mix", 1), ("member", 1), ("member-rm1-2v", 1), ("member-eager", 1), ("member-joint", 2), ("member", 2), ("member-rm1", 2), ("member", 3), ("member-async", 1), ("member-mix", 2)])
+                sc(&[("member-joint", 1), ("member-rm1", 1), ("member-rm1-2v", 0), ("member-mix-page", 0), ("member-joint-al", 0), ("member-jd", 0), ("member-a1", 0), ("snap-jback", 0), ("xfer-cc-al", 0), ("member-fasync", 0), ("member-mix", 1), ("member", 1), ("member-rm1-2v", 1), ("member-eager", 1), ("member-joint", 2), ("member", 2), ("member-rm1", 2), ("member", 3), ("member-async", 1), ("member-mix", 2)])
             };
             p.required_stats = vec![Stat::CcAccepted, Stat::CcNeutralised, Stat::ConfApplied, Stat::JointEntered];
             p.explanation = "explicit-state exploration of V1/V2 proposals at leader and follower with apply lag, elections, restarts; proposal filter relation on every accepted conf-change proposal; no election over an unapplied committed change; every node's configuration compared with the reference fold of the applied membership entries".into();
@@ -133,9 +133,9 @@ pub fn plan_for(prop: &str, tier: &str) -> Plan {
         }
         "C13" => {
             p.scenarios = if q {
-                sc(&[("flow", 0), ("flow-cap", 0), ("repl-i1-sz", 1), ("repl", 1), ("repl-div", 1), ("repl-mix", 1), ("repl-batch-probe", 0), ("repl-grown", 0), ("snap", 1), ("fig8-back-t4", 0), ("flow-elect", 0), ("flow-elect-inherit", 0), ("flow", 1), ("repl-batch", 1)])
+                sc(&[("flow", 0), ("flow-cap", 0), ("repl-i1-sz", 1), ("repl", 1), ("repl-div", 1), ("repl-mix", 1), ("repl-batch-probe", 0), ("repl-grown", 0), ("snap", 1), ("flow-elect-inherit", 0), ("flow-elect", 0), ("fig8-back-t4", 0), ("flow", 1), ("repl-batch", 1)])
             } else {
-                sc(&[("flow", 0), ("flow-cap", 0), ("repl-i1-sz", 1), ("repl", 1), ("repl-div", 1), ("repl-mix", 1), ("repl-batch-probe", 0), ("repl-grown", 0), ("snap", 1), ("fig8-back-t4", 0), ("flow-elect", 0), ("flow-elect-inherit", 0), ("flow", 1), ("repl-batch", 1), ("flow-div", 1), ("flow-batch", 1), ("repl-fetch", 1), ("flow-cap", 1), ("repl-mix", 3), ("repl", 2), ("flow", 2), ("repl-batch", 2)])
+                sc(&[("flow", 0), ("flow-cap", 0), ("repl-i1-sz", 1), ("repl", 1), ("repl-div", 1), ("repl-mix", 1), ("repl-batch-probe", 0), ("repl-grown", 0), ("snap", 1), ("flow-elect-inherit", 0), ("flow-elect", 0), ("fig8-back-t4", 0), ("flow", 1), ("repl-batch", 1), ("flow-div", 1), ("flow-batch", 1), ("repl-fetch", 1), ("flow-cap", 1), ("repl-mix", 3), ("repl", 2), ("flow", 2), ("repl-batch", 2)])
             };
             p.required_stats = vec![Stat::AppendsChecked, Stat::HeartbeatsChecked, Stat::WindowFull, Stat::ProbePaused, Stat::ProposalsAccepted, Stat::ProposalsRefused];
             p.explanation = "explicit-state exploration over all ack/reject/heartbeat-response orders incl. stale, duplicated and reordered ones and runtime window resizing; reference window model per (leader, follower) driven by generated and delivered messages; every generated MsgAppend / MsgHeartbeat checked for well-formedness against the leader's own log; ghost of uncommitted payload bytes".into();
